@@ -285,6 +285,9 @@ def programs(draw, *, pool=PLAIN_POOL, min_splitters=0, max_splitters=3, conditi
             n = draw(st.sampled_from(free))
             splitters.append(n)
             classes[n] = "any"
+    if splitters and draw(st.integers(0, 7)) == 0:
+        # the <fields> rule allows a name to be listed twice: it is one field
+        splitters.insert(draw(st.integers(0, len(splitters))), draw(st.sampled_from(splitters)))
     salt = draw(st.one_of(st.none(), st.sampled_from(salts))) if salts else None
     if tricky and draw(st.integers(0, 2)) == 0:
         if classes and draw(st.booleans()):
@@ -390,7 +393,9 @@ def program_cases(draw, n_inputs=(4, 10), **kw):
     iv = interesting_values(prog, classes)
     n = draw(st.integers(*n_inputs))
     inputs = [M.enc_inputs(draw(inputs_for(prog, classes, iv))) for _ in range(n)]
-    return {"prog": prog, "classes": classes, "inputs": inputs}
+    from . import common
+
+    return {"prog": prog, "classes": classes, "inputs": inputs, "noise": draw(common.noise_strategy())}
 
 
 # --------------------------------------------------------------------------- large shapes (C07)
